@@ -2,6 +2,8 @@
 use vcore::SubCheck;
 
 pub mod util;
+pub mod c03;
+pub mod c05;
 pub mod c11;
 pub mod c12;
 pub mod codec;
@@ -9,6 +11,8 @@ pub mod codec;
 pub fn main() -> i32 {
     util::install_panic_hook();
     let mut checks: Vec<Box<dyn SubCheck>> = vec![];
+    checks.extend(c03::checks());
+    checks.extend(c05::checks());
     checks.extend(c11::checks());
     checks.extend(c12::checks());
     vcore::driver("vp-inproc", checks)
